@@ -4,7 +4,7 @@ import BareModel.Syntax
 # HostPy — the operators and the call wrapper ONE LEVEL DOWN: Python exceptions are values
 
 `Machine.Host.binop` is a *total* function; that totality is what property C05 ("only documented exceptions escape")
-has to justify.  This module models the host level of `evaluate_expression` (runtime.py:255-352 and 238-250):
+has to justify.  This module models the host level of `evaluate_expression` (runtime.py:255-355 and 238-250):
 
 * `PyVal` — the Python values a BareScript value can be (`None`, `bool`, `int`, `float`, `str`, `date`/`datetime`,
   `list`, `dict`, callables, compiled regexes).  Unlike `Machine.Value` it distinguishes `int` from `float`, has
@@ -16,8 +16,9 @@ has to justify.  This module models the host level of `evaluate_expression` (run
   `.error .overflow`.
 * `HostExc` — the classes of host exception; the primitives `pyAdd … pyPow`, `pyStrInt`, `valueString`, `valueCompare`
   are PARTIAL (`Except HostExc _`).
-* `binopPy` — the body of the `try:` block of runtime.py:273-346, branch by branch;
-  `binopSafe` — that body under `except ArithmeticError: return None` (runtime.py:348) and the `complex` test.
+* `binopPy` — the body of the `try:` block of runtime.py:273-347, branch by branch;
+  `binopSafe` — that body under `except (ArithmeticError, ValueError, RecursionError): return None` (runtime.py:351,
+  the handler after the fixes F4 and F25) and the `complex` test.
 * `wrapCall` — the call wrapper runtime.py:238-250.
 
 Nothing here is proved; the theorems are in `BareProofs/C05.lean`.  Everything is computable (driver `drv_c05`,
@@ -115,7 +116,7 @@ def typeName : PyVal → String
   | .none => "null" | .str _ => "string" | .bool _ => "boolean" | .int _ => "number" | .float _ => "number"
   | .dt _ _ => "datetime" | .dict _ => "object" | .list _ => "array" | .callable _ => "function" | .regex _ => "regex"
 
-/-- runtime.py:372 `_is_number`: `isinstance(value, (int, float)) and not isinstance(value, bool)` -/
+/-- runtime.py:375 `_is_number`: `isinstance(value, (int, float)) and not isinstance(value, bool)` -/
 def isNumber : PyVal → Bool
   | .int _ => true
   | .float _ => true
@@ -310,6 +311,24 @@ def pyPow (F : Libm) : PyVal → PyVal → Except HostExc PowOut
     | .ok x => match asFloat F b with
       | .error e => .error e
       | .ok y => floatPowOut F x y
+
+/-- the builtin `float(x)` applied to a number (runtime.py:312/346, fix F24) -/
+def pyFloatOf (F : Libm) (v : PyVal) : Except HostExc PyVal :=
+  match asFloat F v with
+  | .ok x => .ok (.float x)
+  | .error e => .error e
+
+/-- `float(left) * right` -/
+def pyMulF (F : Libm) (a b : PyVal) : Except HostExc PyVal :=
+  match pyFloatOf F a with
+  | .ok fa => pyMul F fa b
+  | .error e => .error e
+
+/-- `float(left) ** right` -/
+def pyPowF (F : Libm) (a b : PyVal) : Except HostExc PowOut :=
+  match pyFloatOf F a with
+  | .ok fa => pyPow F fa b
+  | .error e => .error e
 
 def pyNeg : PyVal → Except HostExc PyVal
   | .int n => .ok (.int (-n))
@@ -512,7 +531,7 @@ def cmpVal (F : Libm) (h : Heap) : Nat → PyVal → PyVal → Except HostExc In
 
 def valueCompare (F : Libm) (h : Heap) (a b : PyVal) : Except HostExc Int := cmpVal F h F.recLimit a b
 
-/-! ## the binary-operator block, runtime.py:273-346, and its handlers -/
+/-! ## the binary-operator block, runtime.py:273-355, and its handler -/
 
 def okVal (r : Except HostExc PyVal) : Except HostExc PowOut :=
   match r with
@@ -535,8 +554,8 @@ def concatR (F : Libm) (h : Heap) (v : PyVal) (s : String) : Except HostExc PowO
   | .ok t => .ok (.val (.str (t ++ s)))
   | .error e => .error e
 
-/-- The body of the `try:` (runtime.py:274-346) — every `if/elif` in source order; falling out of the chain is the
-`return None` of line 352.  `.ok .complex` is the complex result of `**` BEFORE the `isinstance(result, complex)` test. -/
+/-- The body of the `try:` (runtime.py:274-347) — every `if/elif` in source order; falling out of the chain is the
+`return None` of line 355.  `.ok .complex` is the complex result of `**` BEFORE the `isinstance(result, complex)` test. -/
 def binopPy (F : Libm) (h : Heap) (op : BinOp) (a b : PyVal) : Except HostExc PowOut :=
   match op with
   | .add =>
@@ -553,7 +572,7 @@ def binopPy (F : Libm) (h : Heap) (op : BinOp) (a b : PyVal) : Except HostExc Po
       else match a, b with
         | .dt k1 t1, .dt k2 t2 => okVal (dtMinus F k1 t1 k2 t2)                   -- datetime - datetime
         | _, _ => .ok (.val .none)
-  | .mul => if isNumber a && isNumber b then okVal (pyMul F a b) else .ok (.val .none)
+  | .mul => if isNumber a && isNumber b then okVal (pyMulF F a b) else .ok (.val .none)     -- float(left) * right
   | .div => if isNumber a && isNumber b then okVal (pyDiv F a b) else .ok (.val .none)
   | .eq => cmpOp F h a b (· == 0)
   | .ne => cmpOp F h a b (· != 0)
@@ -562,23 +581,30 @@ def binopPy (F : Libm) (h : Heap) (op : BinOp) (a b : PyVal) : Except HostExc Po
   | .ge => cmpOp F h a b (· ≥ 0)
   | .gt => cmpOp F h a b (· > 0)
   | .mod => if isNumber a && isNumber b then okVal (pyMod F a b) else .ok (.val .none)
-  | .pow => if isNumber a && isNumber b then pyPow F a b else .ok (.val .none)
+  | .pow => if isNumber a && isNumber b then pyPowF F a b else .ok (.val .none)            -- float(left) ** right
   | .and => .ok (.val .none)        -- `&&` and `||` never reach the block (runtime.py:260-269)
   | .or => .ok (.val .none)
 
-/-- The exception classes the handler of the operator block catches: runtime.py:348 `except ArithmeticError`.
-(ONE definition: if the handler is widened in /repo, this is the line that changes.) -/
-def caught (e : HostExc) : Bool := e.isArithmetic
+/-- The exception classes the handler of the operator block catches, runtime.py:351
+`except (ArithmeticError, ValueError, RecursionError)` (fixes F4 + F25).  ONE definition: it is the line that changes
+when the handler changes in /repo. -/
+def caught (e : HostExc) : Bool := e.isArithmetic || e == .valueError || e == .recursion
 
-/-- runtime.py:273-352 as a whole: the block, `result if not isinstance(result, complex) else None` (line 345), and
-`except ArithmeticError: return None` (lines 348-349).  What is still `.error` here ESCAPES `evaluate_expression`. -/
-def binopSafe (F : Libm) (h : Heap) (op : BinOp) (a b : PyVal) : Except HostExc PyVal :=
+/-- the handler before fix F25 (`except ArithmeticError`), kept to state what the fix closed -/
+def caughtF4 (e : HostExc) : Bool := e.isArithmetic
+
+/-- the block under a handler catching the classes `c`: `result if not isinstance(result, complex) else None`
+(line 347) and `except …: return None`.  What is still `.error` here ESCAPES `evaluate_expression`. -/
+def binopWith (c : HostExc → Bool) (F : Libm) (h : Heap) (op : BinOp) (a b : PyVal) : Except HostExc PyVal :=
   match binopPy F h op a b with
   | .ok (.val v) => .ok v
   | .ok .complex => .ok .none
-  | .error e => if caught e then .ok .none else .error e
+  | .error e => if c e then .ok .none else .error e
 
-/-- unary minus, runtime.py:360-364: guarded by `_is_number`, no handler needed -/
+/-- runtime.py:273-355 as a whole -/
+def binopSafe (F : Libm) (h : Heap) (op : BinOp) (a b : PyVal) : Except HostExc PyVal := binopWith caught F h op a b
+
+/-- unary minus, runtime.py:358-367: guarded by `_is_number`, no handler needed -/
 def negSafe (v : PyVal) : PyVal :=
   if isNumber v then (match pyNeg v with | .ok r => r | .error _ => .none) else .none
 
@@ -630,5 +656,82 @@ def wrapCall (cfg : WrapCfg) (name : String) (out : CalleeOut) (log : List Strin
   | .parserError m => (.raiseParser m, log)
   | .argsError m rv => (.value rv, logFailure cfg name m log)         -- isinstance(error, ValueArgsError): return error.return_value
   | .host _ m => (.value .none, logFailure cfg name m log)            -- return None
+
+/-! ## a concrete `Libm`: correctly rounded binary64, zone UTC (the driver `drv_c05` and the examples run this one) -/
+
+def pow2 (k : Int) : Rat :=
+  if k ≥ 0 then ((2 ^ k.toNat : Nat) : Rat) else 1 / ((2 ^ (-k).toNat : Nat) : Rat)
+
+def roundHalfEven (x : Rat) : Int :=
+  let f := x.floor
+  let d := x - (f : Rat)
+  if d < 1/2 then f else if d > 1/2 then f + 1 else if f % 2 = 0 then f else f + 1
+
+/-- `⌊log₂ a⌋` for `a > 0` -/
+def ilog2 (a : Rat) : Int :=
+  let e0 : Int := (Nat.log2 a.num.natAbs : Int) - (Nat.log2 a.den : Int)
+  if a < pow2 e0 then e0 - 1 else if a ≥ pow2 (e0 + 1) then e0 + 1 else e0
+
+/-- round-to-nearest-even to binary64 (53-bit significand, subnormals, overflow to ±inf at 2^1024) -/
+def roundBinary64 (q : Rat) : PyFloat :=
+  if q = 0 then .fin 0 else
+  let a := ratAbs q
+  let e := ilog2 a
+  let e' := if e < -1022 then -1022 else e
+  let quantum := pow2 (e' - 52)
+  let n := roundHalfEven (a / quantum)
+  let r := (n : Rat) * quantum
+  if r ≥ pow2 1024 then .inf (decide (q < 0)) else .fin (if q < 0 then -r else r)
+
+def ratPowNat (a : Rat) : Nat → Rat
+  | 0 => 1
+  | n+1 => a * ratPowNat a n
+
+def ratPowInt (a : Rat) (k : Int) : Rat := if k ≥ 0 then ratPowNat a k.toNat else 1 / ratPowNat a (-k).toNat
+
+/-- what the driver knows about `pow(a, y)`, `a > 0`:
+`exact` (integral exponent of moderate size: the exact power, then rounded), `sureFin` / `sureInf` (kind decided by
+bracketing `a` between powers of two), `unknown` (the harness does not compare) -/
+inductive PowKind where
+  | exact | sureFin | sureInf | unknown
+deriving Repr, DecidableEq, Inhabited
+
+def powKind (a y : Rat) : PowKind :=
+  if y.den == 1 && y.num.natAbs ≤ 2200 && a.num.natAbs < 2 ^ 64 && a.den < 2 ^ 64 then .exact
+  else
+    -- write the power with a base > 1
+    let b := if a < 1 then 1 / a else a
+    let z := if a < 1 then -y else y
+    if b = 1 then .sureFin
+    else if z < 0 then .sureFin
+    else
+      let e := ilog2 b                      -- 2^e ≤ b < 2^(e+1)
+      if (e : Rat) * z ≥ 1025 then .sureInf
+      else if ((e : Rat) + 1) * z < 1023 then .sureFin
+      else .unknown
+
+def ieeePowPos (a y : Rat) : PyFloat :=
+  match powKind a y with
+  | .exact => roundBinary64 (ratPowInt a y.num)
+  | .sureInf => .inf false
+  | _ => .fin 1                             -- placeholder value: only the KIND is meaningful (flagged by the driver)
+
+def floatTextSimple : PyFloat → String
+  | .fin q => if q.den == 1 then toString q.num else toString q.num ++ "/" ++ toString q.den
+  | .inf neg => if neg then "-inf" else "inf"
+  | .nan => "nan"
+
+def dayUs : Int := 86400000000
+
+/-- zone UTC: an aware datetime normalises to itself inside the range; `naive.astimezone()` raises ValueError within a
+day of either end of the range (observed on CPython 3.12, TZ=UTC) -/
+def ieee : Libm where
+  rnd := roundBinary64
+  powPos := ieeePowPos
+  usOfMillis := fun q => roundHalfEven (q * 1000)
+  normAware := fun t => if 0 ≤ t ∧ t ≤ maxUs then some t else none
+  isoLocal := fun u => if dayUs ≤ u ∧ u ≤ maxUs - dayUs then .text ("<dt " ++ toString u ++ ">") else .valueError
+  floatText := floatTextSimple
+  recLimit := 1000
 
 end HostPy
